@@ -1,9 +1,9 @@
 package main
 
 import (
-	"go/token"
 	"fmt"
 	"go/ast"
+	"go/token"
 	"go/types"
 	"strings"
 )
@@ -64,7 +64,9 @@ func c19NotTemplated(c *Check, a *Anchors) {
 			c.Errorf("forwarded-not-templated: no Set site for %s", what)
 		}
 	}
-	site(c.P.Func(PkgMain, "", "run"), "CLI_ARGS", func(call *ast.CallExpr) bool { return constIs(c.P.Func(PkgMain, "", "run").Info(), call.Args[0], `"CLI_ARGS"`) })
+	site(c.P.Func(PkgMain, "", "run"), "CLI_ARGS", func(call *ast.CallExpr) bool {
+		return constIs(c.P.Func(PkgMain, "", "run").Info(), call.Args[0], `"CLI_ARGS"`)
+	})
 	site(c.P.Func(PkgArgs, "", "Parse"), "NAME=value", func(call *ast.CallExpr) bool { return true })
 }
 
@@ -336,43 +338,73 @@ func c19ShellQuote(c *Check, a *Anchors) {
 }
 
 func c19SplitVar(c *Check, a *Anchors) {
-	c.Rule("splitvar", "NAME=value arguments are split with strings.SplitN(s, \"=\", 2) (first '=' only), and the splitter is only called on the edge where strings.Contains(arg, \"=\") holds")
-	sv := c.P.Func(PkgArgs, "", "splitVar")
+	c.Rule("splitvar", "NAME=value arguments are split at the FIRST '=' only — strings.SplitN(s, \"=\", 2) or strings.Cut(s, \"=\") in args.Parse or a helper of it — never with strings.Split / SplitN with another count / LastIndex; the SplitN form is only reached on the edge where strings.Contains(arg, \"=\") holds (its second element is indexed)")
 	parse := c.P.Func(PkgArgs, "", "Parse")
-	if sv == nil || parse == nil {
-		c.Errorf("splitvar: args.splitVar / args.Parse not found")
+	if parse == nil {
+		c.Errorf("splitvar: args.Parse not found")
 		return
 	}
-	c.Fn(sv)
-	c.Fn(parse)
-	info := sv.Info()
-	okSplit := false
-	for _, call := range callsIn(sv, false) {
-		if isFunc(callee(info, call), "strings", "", "SplitN") && len(call.Args) == 3 && constIs(info, call.Args[1], `"="`) && constIs(info, call.Args[2], "2") {
-			okSplit = true
+	n := 0
+	okSplit, bad := false, ""
+	var splitters []*FuncBody // helpers that perform the SplitN and index its result
+	for _, g := range c.P.groupOf(parse, 2) {
+		c.Fn(g)
+		info := g.Info()
+		for _, call := range callsIn(g, true) {
+			fn, ok := callee(info, call).(*types.Func)
+			if !ok || fn.Pkg() == nil || fn.Pkg().Path() != "strings" {
+				continue
+			}
+			sepEq := func(i int) bool { return len(call.Args) > i && constIs(info, call.Args[i], `"="`) }
+			switch fn.Name() {
+			case "SplitN":
+				if sepEq(1) {
+					if len(call.Args) == 3 && constIs(info, call.Args[2], "2") {
+						okSplit = true
+						if g != parse {
+							splitters = append(splitters, g)
+						}
+					} else {
+						bad = "strings.SplitN with a count other than 2"
+					}
+				}
+			case "Cut":
+				if sepEq(1) {
+					okSplit = true
+				}
+			case "Split", "SplitAfter", "LastIndex", "LastIndexByte", "Fields":
+				if sepEq(1) {
+					bad = "strings." + fn.Name() + `(…, "=")`
+				}
+			}
 		}
 	}
-	c.Decide(okSplit, "splitvar", "SplitN-first-equals@"+fnDisplay(sv), sv.Decl.Pos(), `strings.SplitN(s, "=", 2)`, "the variable splitter no longer uses strings.SplitN(s, \"=\", 2): a value containing '=' is truncated")
+	n++
+	c.Decide(okSplit && bad == "", "splitvar", "first-equals-only@"+fnDisplay(parse), parse.Decl.Pos(), "split at the first '=' (SplitN(…, 2) / Cut)", "the variable splitter does not split at the first '=' only ("+bad+"): a value containing '=' is truncated or mis-assigned")
 	pinfo := parse.Info()
 	f := NewFlow(c.P, parse, func(call *ast.CallExpr, obj types.Object) string {
 		if isFunc(obj, "strings", "", "Contains") && len(call.Args) == 2 && constIs(pinfo, call.Args[1], `"="`) {
 			return "has-equals"
 		}
-		if a.is(obj, sv) {
+		for _, sv := range splitters {
+			if a.is(obj, sv) {
+				return "split"
+			}
+		}
+		if isFunc(obj, "strings", "", "SplitN") {
 			return "split"
 		}
 		return ""
 	})
+	f.NoInline = true
 	f.Run()
-	n := 0
 	for call, l := range f.Labels {
 		if l == "split" {
 			n++
-			c.Decide(f.At[call].Has("true:has-equals"), "splitvar", "called-on-contains-edge@"+fnDisplay(parse), call.Pos(), "only when the argument contains '='", "the splitter is called without the argument having been tested to contain '=' (pair[1] would be out of range)")
+			c.Decide(f.At[call].Has("true:has-equals"), "splitvar", "called-on-contains-edge@"+fnDisplay(parse), call.Pos(), "only when the argument contains '='", "the SplitN-based splitter is reached without the argument having been tested to contain '=' (its second element would be out of range)")
 		}
 	}
-	_ = pinfo
-	c.Floor("splitvar", n+1, 2)
+	c.Floor("splitvar", n, 1)
 }
 
 func c19InitPath(c *Check, a *Anchors) {
@@ -382,14 +414,17 @@ func c19InitPath(c *Check, a *Anchors) {
 		c.Errorf("init-path: run() not found")
 		return
 	}
-	info := run.Info()
 	initObj := c.P.Lookup(PkgTask, "InitTaskfile")
 	var initCall *ast.CallExpr
-	for _, call := range callsIn(run, false) {
-		if callee(info, call) == initObj && initObj != nil {
-			initCall = call
+	// the --init handling lives in run() or in a helper of package main that run() calls
+	for _, g := range c.P.groupOf(run, 2) {
+		for _, call := range callsIn(g, false) {
+			if callee(g.Info(), call) == initObj && initObj != nil && initCall == nil {
+				initCall, run = call, g
+			}
 		}
 	}
+	info := run.Info()
 	if initCall == nil {
 		c.Bad("init-path", "call@"+fnDisplay(run), run.Decl.Pos(), "run() no longer calls task.InitTaskfile")
 		return
